@@ -1,6 +1,8 @@
 """C07 -- no rating inflation: precision-weighted mu change sums to zero over a game."""
 import itertools
 
+from sx.core import som
+
 from harness import common as H
 
 INFO = {
@@ -78,11 +80,12 @@ def H_lift(x):
 def run_job(spec, ctx):
     import z3
     key, shape, ranks = spec['model'], tuple(spec['shape']), tuple(spec['ranks'])
-    res, stats = H.explore_rate(key, shape, ranks=ranks, ctx=ctx)
     beta, tau, kappa = z3.Real('beta'), z3.Real('tau'), z3.Real('kappa')
     names = H.sym_names(shape)
     first = True
-    for (kind, out), eng in res:
+    for (kind, out), eng in H.iter_rate(key, shape, ranks=ranks, ctx=ctx):
+        if ctx.candidates:
+            break  # a witness exists already; the replay decides
         if kind == 'exc':
             ctx.ob(f'path ends in {type(out).__name__}: {out}', 'unknown')
             continue
@@ -106,7 +109,7 @@ def run_job(spec, ctx):
         if first:
             H.vacuity_check(ctx, eng, H_lift(out[0][0][0]) == z3.Real(H.pname('mu', 0, 0)) + 12345)
             first = False
-        d = z3.simplify(total, som=True) if key not in H.TM else None
+        d = som(total) if key not in H.TM else None
         if d is not None and z3.is_rational_value(d) and d.numerator_as_long() == 0:
             ctx.ob('total == 0', 'syntactic')
             continue
